@@ -4,7 +4,10 @@ import (
 	"bytes"
 	"context"
 	"fmt"
+	"os"
+	"path/filepath"
 	"sort"
+	"strings"
 
 	pbsubstreams "github.com/streamingfast/substreams/pb/sf/substreams/v1"
 	"go.uber.org/zap"
@@ -13,29 +16,127 @@ import (
 	"verif/harness/gen"
 	"verif/harness/model"
 	"verif/harness/rs"
+	"verif/harness/sim"
 )
 
 // C09: replaying a store's cached operation log reproduces deltas and state.
 
 func init() {
-	pairs := model.Pairs()
 	fw.Register(&fw.Spec{
 		ID:    "C09",
 		Level: "exploration",
 		Rule: "case = one (policy,value type) pair x one PRNG pre-state (0..3 blocks) x one chain of 1..5 blocks; store A executes each block through wasm.Call.Do* and its log is read with ReadOps after Flush; " +
 			"store B (same pre-state obtained through Save/Load of A's pre-state) receives ApplyOps(log) per block, Reset between blocks as the engine does. Monitors per block: GetDeltas equal field by field, content equal; " +
 			"for partial stores additionally the saved-and-reloaded snapshot (keys, values, deleted prefixes) equal, and merging either snapshot into the same full store gives the same typed content. " +
-			"non-trivial = replayed block with >=2 ops; distinct by hash of (pair, pre-state, ops)",
+			"end-to-end part (the last cases; quick 60, thorough 6 000): a generated package is run once in production mode, then EVERY cache file except the cached outputs of store modules is deleted and the request is run again, so that tier2 rebuilds each store by replaying its cached operation log through pipeline/exec (applyCachedOutput) while dependent modules execute on the replayed deltas; " +
+			"monitors: stream, every store read, hand-off stores and every regenerated file equal REF-LINEAR. " +
+			"non-trivial = replayed block with >=2 ops (store part) / re-run with at least one store output file kept and one tier2 job (end-to-end part); distinct by hash of (pair, pre-state, ops)",
 		Assumptions: []string{"exact numeric operands (see C02)", "byte-for-byte equality of deltas and raw content is required because replay runs the same code on the same bytes"},
 		Cases: func(tier, mode string) int {
-			if tier == "thorough" {
-				return len(pairs) * 30000
-			}
-			return len(pairs) * 80
+			return c09StoreCases(tier) + c09E2ECases(tier)
 		},
+		CaseTimeout: 300e9,
 		MinNontrivial: 100,
 		Run:           runC09,
 	})
+}
+
+func c09StoreCases(tier string) int {
+	if tier == "thorough" {
+		return len(model.Pairs()) * 30000
+	}
+	return len(model.Pairs()) * 80
+}
+
+func c09E2ECases(tier string) int {
+	if tier == "thorough" {
+		return 6000
+	}
+	return 60
+}
+
+// runC09E2E: the replay as the engine performs it. Golden production run, keep only the cached outputs of store modules,
+// run again: every store is rebuilt by tier2 from its cached operation log.
+func runC09E2E(c *fw.Case) {
+	s := newScen(c, gen.PkgOpts{MaxMods: 6, NoIndex: c.R.Intn(2) == 0, ForceDelete: c.R.Intn(2) == 0})
+	defer s.close()
+	outs := s.outputs()
+	if c.Violated() || len(outs) == 0 {
+		c.Count("packages_without_visible_output", 1)
+		return
+	}
+	out := outs[c.R.Intn(len(outs))]
+	ref := s.ref(out)
+	req := s.genRequest(out)
+	req.Prod = true
+	req.Final = s.cl.Head
+	req.Workers = 1 + c.R.Intn(3)
+	pl, err := s.cl.PlanFor(req)
+	if err != nil || pl.KnownHangShape() || pl.Plan.BuildStores == nil {
+		c.Count("requests_without_store_backfill", 1)
+		return
+	}
+	res := s.cl.Run(req)
+	if res.Err != nil || res.Stuck {
+		c.Count("golden_run_failed_not_decided_here", 1)
+		return
+	}
+	hashes := ref.Graph.ModuleHashes()
+	byHash := map[string]string{}
+	for _, m := range ref.Graph.UsedModules() {
+		byHash[hashes.Get(m.Name)] = m.Name
+	}
+	root := filepath.Join(s.cl.Dir, s.cl.Tag)
+	var kept, removed []string
+	for _, f := range s.cl.ListCache() {
+		if strings.HasSuffix(f.Rel, ".spkg.zst") {
+			continue
+		}
+		if f.Sub == "outputs" && s.pkg.Kind[byHash[f.Hash]] == "store" {
+			kept = append(kept, f.Rel)
+			continue
+		}
+		os.Remove(filepath.Join(root, f.Rel))
+		removed = append(removed, f.Rel)
+	}
+	c.Count("e2e_scenarios", 1)
+	if len(kept) == 0 {
+		c.Count("e2e_scenarios_without_store_output_file", 1)
+		return
+	}
+	c.Count("store_output_files_replayed_from", int64(len(kept)))
+	req.OrderSeed = 1 + c.R.Int63n(1<<40)
+	res2 := s.cl.Run(req)
+	extra := map[string]any{"request": req, "kept_store_output_files": kept, "removed_files": removed, "jobs": res2.Jobs}
+	if res2.Stuck {
+		c.Count("rerun_stuck_not_decided_here", 1)
+		return
+	}
+	if res2.Err != nil {
+		c.Violation("C09/e2e/request-failed/"+fw.NormalizeMsg(res2.Err.Error()), "re-run on the cached store outputs failed: "+res2.Err.Error(), s.witness(extra))
+		return
+	}
+	fs, facts := sim.CheckStream(res2, ref, false)
+	s.report("C09/e2e", fs, extra)
+	rf, compared, _ := sim.CheckReads(res2.Execs, ref)
+	s.report("C09/e2e", rf, extra)
+	c.Count("store_reads_compared", int64(compared))
+	c.Count("nonempty_payloads_compared", int64(facts.NonEmpty))
+	hf, hc := sim.CheckHandoffStores(res2, ref, s.pkg)
+	s.report("C09/e2e", hf, extra)
+	c.Count("handoff_stores_compared", int64(hc))
+	af, afacts := s.cl.AuditCache(ref, s.pkg)
+	s.report("C09/e2e", af, extra)
+	c.Count("regenerated_kv_files_audited", int64(afacts.KV))
+	if c.Violated() {
+		return
+	}
+	if len(res2.Jobs) > 0 {
+		c.Nontrivial(fmt.Sprintf("%v|%+v", s.pkg.Describe(), req))
+	}
+	if c.WantSample() {
+		c.Sample(s.witness(extra))
+	}
 }
 
 func deltasDiff(a, b []*pbsubstreams.StoreDelta) string {
@@ -53,6 +154,10 @@ func deltasDiff(a, b []*pbsubstreams.StoreDelta) string {
 }
 
 func runC09(c *fw.Case) {
+	if c.Index >= c09StoreCases(c.Tier) {
+		runC09E2E(c)
+		return
+	}
 	pairs := model.Pairs()
 	p := pairs[c.Index%len(pairs)]
 	g := gen.NewStoreOps(c.R, p)
